@@ -135,6 +135,17 @@ const ARITH_SITES: &[(&str, &str, &str)] = &[
     // no narrow arithmetic left in the scanned files (the top side bearing is computed in i32 and
     // checked); these are the lines that make the glyf step check one walk over ALL points of a
     // glyph with a single running previous point (contour seams included)
+    // ... and the lines that make the coordinate check look at EVERY point (on- and off-curve)
+    // of EVERY element of EVERY master's path
+    ("fontbe/src/glyphs.rs", "forelinpath.elements(){", "glyphs.rs:check_path_fits_i16.elements(every path element)"),
+    ("fontbe/src/glyphs.rs", "PathEl::MoveTo(p)|PathEl::LineTo(p)=>[Some(p),None,None],", "glyphs.rs:check_path_fits_i16.points(move/line)"),
+    ("fontbe/src/glyphs.rs", "PathEl::QuadTo(p1,p)=>[Some(p1),Some(p),None],", "glyphs.rs:check_path_fits_i16.points(quad: control and end)"),
+    ("fontbe/src/glyphs.rs", "PathEl::CurveTo(p1,p2,p)=>[Some(p1),Some(p2),Some(p)],", "glyphs.rs:check_path_fits_i16.points(cubic: controls and end)"),
+    ("fontbe/src/glyphs.rs", "forpinpoints.into_iter().flatten(){", "glyphs.rs:check_path_fits_i16.points(all)"),
+    ("fontbe/src/glyphs.rs", "check_fits_i16(glyph_name,\"xcoordinate\",p.x)?;", "glyphs.rs:check_path_fits_i16.x"),
+    ("fontbe/src/glyphs.rs", "check_fits_i16(glyph_name,\"ycoordinate\",p.y)?;", "glyphs.rs:check_path_fits_i16.y"),
+    ("fontbe/src/glyphs.rs", "forpathin&bezpaths{", "glyphs.rs:GlyphWork.check_path_fits_i16(every master)"),
+    ("fontbe/src/glyphs.rs", "check_path_fits_i16(&self.glyph_name,path)?;", "glyphs.rs:GlyphWork.check_path_fits_i16(call)"),
     ("fontbe/src/glyphs.rs", "let(mutlast_x,mutlast_y)=(0_i32,0_i32);", "glyphs.rs:check_point_deltas_fit_i16.start(one previous point per glyph)"),
     ("fontbe/src/glyphs.rs", "forpointinglyph.contours.iter().flat_map(|c|c.iter()){", "glyphs.rs:check_point_deltas_fit_i16.walk(flat over contours)"),
 ];
@@ -451,6 +462,22 @@ fn gen_cases(seed: u64, n: usize, tier: &str) -> Vec<Case> {
         push("seam", a, b, 1, "boundary", &mut v);
         push("seam", a, b, 3, "boundary", &mut v);
     }
+    // off-curve points: the control point of a quadratic segment / of a cubic segment (through
+    // cu2qu) is outside i16 while the on-curve points and the curve stay near the origin
+    for &x in &[30000.0, 32767.0, 32767.25, 32767.5, 32768.0, 40000.0, 65534.0, 65535.0, 65541.0, 70000.0, 140000.0,
+                -30000.0, -32768.0, -32768.5, -32768.75, -32769.0, -40000.0, -65535.0, -70000.0] {
+        push("quad", x, 0.0, 0, "boundary", &mut v);
+        push("quad", x, 0.0, 1, "boundary", &mut v);
+    }
+    for &x in &[30000.0, 32766.0, 32767.0, 32769.0, 39999.0, 49152.0, 65535.0, 70002.0, -30000.0, -32766.0, -32769.0, -32772.0, -39999.0, -65535.0] {
+        push("cubic", x, 0.0, 0, "boundary", &mut v);
+        push("cubic", x, 0.0, 1, "boundary", &mut v);
+    }
+    // the same control point in a non-default master (default inside)
+    for (x0, dv) in [(30000.0, 2000.0), (30000.0, 2767.0), (30000.0, 2768.0), (30000.0, 10000.0), (20000.0, 45535.0), (-30000.0, -2768.0), (-30000.0, -2769.0), (-30000.0, -10000.0), (32768.0, -1000.0)] {
+        push("qvar", x0, dv, 0, "boundary", &mut v);
+        push("qvar", x0, dv, 1, "boundary", &mut v);
+    }
     // component 2x2 entries around +-2
     let q14 = 1.0 / 16384.0;
     for &s in &[1.0, 1.5, 2.0 - q14, 2.0 - q14 / 2.0, 2.0 - q14 / 4.0, 2.0, 2.0 + q14 / 4.0, 2.0 + q14, 2.25, 3.0, 4.0, -1.5, -2.0 + q14, -2.0, -2.0 - q14 / 4.0, -2.0 - q14, -2.25, -4.0] {
@@ -507,7 +534,12 @@ fn gen_cases(seed: u64, n: usize, tier: &str) -> Vec<Case> {
     }
     // ---- seeded draws
     for _ in 0..n {
-        match rng.below(13) {
+        match rng.below(14) {
+            13 => {
+                let (x, d) = draw_i16(&mut rng);
+                let kind = *rng.pick(&["quad", "quad", "cubic"]);
+                push(kind, if kind == "cubic" { x.round() } else { x }, 0.0, rng.below(2), d, &mut v);
+            }
             12 => {
                 // two boxes whose coordinates fit; the seam step may not
                 let a = quarter(&mut rng, -32768, 32667);
@@ -645,6 +677,32 @@ fn coord_contours(c: &Case) -> Vec<Vec<(f64, f64)>> {
         }
         _ => unreachable!(),
     }
+}
+
+/// The contour of the curve kinds, in source order: p0 (line), p1 (line), control point(s) (off
+/// curve), p2 (qcurve / curve).  The first segment p0 -> p1 is a line, so that after the
+/// direction reversal the contour still closes with a line and is emitted as p0, p2, controls
+/// reversed, p1 (every point kept).  The control points carry the probed coordinate `v` on the
+/// axis `n & 1`; the on-curve points and the curve itself stay near the origin.
+fn curve_contour(kind: &str, v: f64, n: u64) -> Vec<(f64, f64, Pt)> {
+    let sw = |x: f64, y: f64, t: Pt| if n & 1 == 0 { (x, y, t) } else { (y, x, t) };
+    match kind {
+        "quad" | "qvar" => vec![sw(-100.0, 500.0, Pt::Line), sw(0.0, 0.0, Pt::Line), sw(v, 500.0, Pt::Off), sw(0.0, 1000.0, Pt::QCurve)],
+        // the cubic is the degree-elevated quadratic (0,0) -> control (v, 750) -> (0, 1500): its own
+        // control points are at 2v/3, cu2qu turns it back into one quadratic with the control at v
+        _ => vec![sw(-100.0, 500.0, Pt::Line), sw(0.0, 0.0, Pt::Line), sw(2.0 * v / 3.0, 500.0, Pt::Off), sw(2.0 * v / 3.0, 1000.0, Pt::Off), sw(0.0, 1500.0, Pt::Curve)],
+    }
+}
+
+/// what kurbo's cu2qu (the converter fontbe calls, same tolerance upem / 1000) makes of the cubic
+/// segment of the "cubic" contour: the control points of the quadratic spline
+fn cubic_expected_off_points(v: f64, n: u64) -> Option<Vec<(f64, f64)>> {
+    let c = curve_contour("cubic", v, n);
+    let p = |i: usize| kurbo::Point::new(c[i].0, c[i].1);
+    let cubic = kurbo::CubicBez { p0: p(1), p1: p(2), p2: p(3), p3: p(4) };
+    let splines = kurbo::cubics_to_quadratic_splines(&[cubic], 1.0)?;
+    let pts = splines[0].points();
+    Some(pts[1..pts.len() - 1].iter().map(|q| (q.x, q.y)).collect())
 }
 
 fn to_contours(cs: &[Vec<(f64, f64)>]) -> Vec<Vec<(f64, f64, Pt)>> {
@@ -788,6 +846,19 @@ fn build_source(c: &Case) -> Option<Source> {
             d.masters[0].fontinfo = vec![(key.into(), int_plist(c.a))];
             d
         }
+        "quad" | "cubic" => {
+            let mut a = GlyphSrc::new("a", 600.0).uni(0x61);
+            a.contours.push(curve_contour(c.kind, c.a, c.n));
+            single(vec![a], &["a"])
+        }
+        "qvar" => {
+            let g = |v: f64| {
+                let mut a = GlyphSrc::new("a", 600.0).uni(0x61);
+                a.contours.push(curve_contour("qvar", v, c.n));
+                vec![a]
+            };
+            two_masters("C19V", g(c.a), g(c.a + c.b), &["a"])
+        }
         "hvar" => {
             let g = |adv: f64| {
                 let mut a = GlyphSrc::new("a", adv).uni(0x61);
@@ -878,7 +949,7 @@ fn fnv(b: &[u8]) -> u64 {
 #[derive(Debug, Clone)]
 enum Body {
     Empty,
-    Simple { bbox: [i64; 4], ends: Vec<i64>, pts: Vec<(i64, i64)> },
+    Simple { bbox: [i64; 4], ends: Vec<i64>, pts: Vec<(i64, i64)>, on: Vec<i64> },
     Composite { bbox: [i64; 4], comps: Vec<[i64; 7]> },
 }
 
@@ -938,7 +1009,8 @@ fn parse_glyph(d: &[u8]) -> Option<Body> {
             }
             pts.push((xs[i], y));
         }
-        Some(Body::Simple { bbox, ends, pts })
+        let on = flags.iter().map(|f| (f & 1) as i64).collect();
+        Some(Body::Simple { bbox, ends, pts, on })
     } else {
         let mut o = 10;
         let mut comps = Vec::new();
@@ -1034,7 +1106,7 @@ impl<'a> Font<'a> {
 fn dump_body(b: &Body, out: &mut Vec<i64>) {
     match b {
         Body::Empty => out.push(-1),
-        Body::Simple { bbox, ends, pts } => {
+        Body::Simple { bbox, ends, pts, .. } => {
             out.push(0);
             out.push(ends.len() as i64);
             out.extend(ends.iter());
@@ -1212,6 +1284,24 @@ fn skrifa_at(bytes: &[u8], gid: u32, w: f32) -> Option<Vec<i64>> {
     Some(vec![xs.clone().fold(f32::INFINITY, f32::min).round() as i64, xs.fold(f32::NEG_INFINITY, f32::max).round() as i64])
 }
 
+/// extent (min, max) along x (or y) of everything skrifa's pen receives for glyph `gid` at
+/// wght = `w`: on-curve and control points
+fn skrifa_extent(bytes: &[u8], gid: u32, w: f32, y_axis: bool) -> Option<Vec<i64>> {
+    use skrifa::instance::Size;
+    use skrifa::outline::DrawSettings;
+    use skrifa::{FontRef, GlyphId, MetadataProvider};
+    let font = FontRef::new(bytes).ok()?;
+    let loc = font.axes().location([("wght", w)]);
+    let g = font.outline_glyphs().get(GlyphId::new(gid))?;
+    let mut pen = PtsPen(Vec::new());
+    g.draw(DrawSettings::unhinted(Size::unscaled(), &loc), &mut pen).ok()?;
+    if pen.0.is_empty() {
+        return Some(vec![0, 0]);
+    }
+    let vs = pen.0.iter().map(|p| if y_axis { p.1 } else { p.0 });
+    Some(vec![vs.clone().fold(f32::INFINITY, f32::min).round() as i64, vs.fold(f32::NEG_INFINITY, f32::max).round() as i64])
+}
+
 /// hmtx advance of `gid` plus the HVAR delta at normalized wght = 1 (item variation store
 /// evaluated in i32 by read-fonts)
 fn hvar_advance_at_max(bytes: &[u8], gid: u16) -> Option<i64> {
@@ -1278,6 +1368,35 @@ fn fields_of(c: &Case, bytes: &[u8]) -> Option<Vec<i64>> {
             out.extend(skrifa_at(bytes, 1, 400.0)?);
             out.extend(skrifa_at(bytes, 1, 700.0)?);
         }
+        "qvar" => {
+            out.extend(skrifa_extent(bytes, 1, 400.0, c.n & 1 == 1)?);
+            out.extend(skrifa_extent(bytes, 1, 700.0, c.n & 1 == 1)?);
+        }
+        "quad" => {
+            let g = f.glyph(1)?;
+            dump_body(&g, &mut out);
+            out.extend(f.head_bbox()?.iter());
+            if let Body::Simple { on, .. } = &g {
+                out.extend(on.iter());
+            }
+        }
+        "cubic" => match f.glyph(1)? {
+            // [number of off-curve points, the off-curve points sorted, how many of the three
+            //  source on-curve points are emitted as on-curve points]
+            Body::Simple { pts, on, .. } => {
+                let mut offs: Vec<(i64, i64)> = pts.iter().zip(on.iter()).filter(|(_, o)| **o == 0).map(|(p, _)| *p).collect();
+                offs.sort();
+                out.push(offs.len() as i64);
+                for (x, y) in offs {
+                    out.push(x);
+                    out.push(y);
+                }
+                let src = curve_contour("cubic", c.a, c.n);
+                let found = [0usize, 1, 4].iter().filter(|i| pts.iter().zip(on.iter()).any(|(p, o)| *o == 1 && *p == (otr(src[**i].0), otr(src[**i].1)))).count();
+                out.push(found as i64);
+            }
+            _ => out.push(-1),
+        },
         "compdelta" => {
             out.extend(skrifa_at(bytes, 2, 400.0)?);
             out.extend(skrifa_at(bytes, 2, 700.0)?);
@@ -1420,7 +1539,7 @@ fn faithful_simple(cs: &[Vec<(f64, f64)>]) -> Option<Vec<i64>> {
         ly = *y;
     }
     let mut out = Vec::new();
-    dump_body(&Body::Simple { bbox: bbox_pts(&pts), ends, pts }, &mut out);
+    dump_body(&Body::Simple { bbox: bbox_pts(&pts), ends, pts, on: vec![] }, &mut out);
     Some(out)
 }
 
@@ -1519,6 +1638,47 @@ fn expect(c: &Case) -> Expect {
             d.extend(union(NOTDEF_BBOX, bb));
             d
         })),
+        "quad" => {
+            let src = curve_contour("quad", c.a, c.n);
+            let cs = vec![src.iter().map(|(x, y, _)| (*x, *y)).collect::<Vec<_>>()];
+            ex(faithful_simple(&cs).map(|mut d| {
+                let bb = body_bbox_from_dump(&d).unwrap();
+                d.extend(union(NOTDEF_BBOX, bb));
+                // emitted as p0, p2, control, p1
+                d.extend([1, 1, 0, 1]);
+                d
+            }))
+        }
+        "cubic" => match cubic_expected_off_points(c.a, c.n) {
+            None => Expect::MustReject,
+            Some(offs) => {
+                let mut r: Vec<(i64, i64)> = offs.iter().map(|(x, y)| (otr(*x), otr(*y))).collect();
+                if r.iter().any(|(x, y)| !fits16(*x) || !fits16(*y)) {
+                    Expect::MustReject
+                } else {
+                    r.sort();
+                    let mut d = vec![r.len() as i64];
+                    for (x, y) in r {
+                        d.push(x);
+                        d.push(y);
+                    }
+                    d.push(3);
+                    // the steps between successive points are not predicted here: a rejection is
+                    // accepted, an emitted font must have exactly these control points
+                    Expect::IfEmitted(d)
+                }
+            }
+        },
+        "qvar" => {
+            // glyf holds the default master, gvar the difference: representable when both fit
+            // after rounding... the compiler may also refuse a master it cannot hold in i16
+            let (x0, x1) = (otr(c.a), otr(c.a + c.b));
+            if fits16(x0) {
+                Expect::IfEmitted(vec![x0.min(-100), x0.max(0), x1.min(-100), x1.max(0)])
+            } else {
+                Expect::MustReject
+            }
+        }
         "compoff" | "compbbox" => {
             let r = otr(c.a);
             let (dx, dy) = if c.n == 0 { (r, 0) } else { (0, r) };
@@ -1624,6 +1784,8 @@ fn describe(c: &Case) -> String {
             if c.kind == "tsb" { format!(" with openTypeVheaVertTypo* set and openTypeOS2TypoAscender {}", c.b) } else { String::new() },
             coord_contours(c)[0]
         ),
+        "quad" | "cubic" => format!("single UFO: glyph a = one closed contour (x, y, type), Off = off-curve control point: {:?}", curve_contour(c.kind, c.a, c.n)),
+        "qvar" => format!("designspace wght 400..700, two masters: glyph a = one closed contour; at 400: {:?}; at 700: {:?}", curve_contour("qvar", c.a, c.n), curve_contour("qvar", c.a + c.b, c.n)),
         "seam" => format!("single UFO: glyph a = {} closed contours of line points, in this order: {:?}", coord_contours(c).len(), coord_contours(c)),
         "compoff" | "compbbox" => format!("single UFO: ap = square 0..100, an = square -100..0, glyph c = one component of {} with {}Offset={}", if (c.a >= 0.0) == (c.kind == "compoff") { "an" } else { "ap" }, if c.n == 0 { "x" } else { "y" }, c.a),
         "scale" => format!("single UFO: ap = square 0..100, glyph c = component of ap with {}={} plus component of ap at xOffset 300", ["xScale", "xyScale", "yxScale", "yScale"][c.n as usize], c.a),
@@ -1651,6 +1813,9 @@ fn keys(kind: &str) -> (&'static str, &'static str, &'static str) {
         "adv" => ("metrics_and_limits.rs:hmtx.advance:saturates", "metrics_and_limits.rs:hmtx.advance:profiles-differ", "advance width (fontbe/src/metrics_and_limits.rs: width.ot_round() -> u16)"),
         "vadv" => ("ir.rs:GlyphInstance.height:saturates", "ir.rs:GlyphInstance.height:profiles-differ", "advance height (fontir/src/ir.rs GlyphInstance::height: ot_round() -> u16)"),
         "coord" => ("glyphs.rs:glyf.coordinate:saturates", "glyphs.rs:glyf.coordinate_delta:i16-overflow", "outline coordinate (write-fonts CurvePoint::from via fontbe/src/glyphs.rs: ot_round() -> i16)"),
+        "quad" => ("glyphs.rs:glyf.coordinate:saturates", "glyphs.rs:glyf.coordinate_delta:i16-overflow", "off-curve (control) point coordinate of a quadratic segment (fontbe/src/glyphs.rs check_path_fits_i16 must look at every point of every path element; write-fonts CurvePoint::from: ot_round() -> i16)"),
+        "cubic" => ("glyphs.rs:glyf.coordinate:saturates", "glyphs.rs:glyf.coordinate_delta:i16-overflow", "control point of the quadratic spline cu2qu makes of a cubic segment (fontbe/src/glyphs.rs check_path_fits_i16 on the converted paths; write-fonts CurvePoint::from: ot_round() -> i16)"),
+        "qvar" => ("glyphs.rs:glyf.master_coordinate:saturates", "glyphs.rs:glyf.master_coordinate:profiles-differ", "off-curve point coordinate in a non-default master (fontbe/src/glyphs.rs check_path_fits_i16 runs on every master; the master's points are rounded to i16 before the gvar deltas are taken)"),
         "seam" => ("glyphs.rs:glyf.coordinate:saturates", "glyphs.rs:glyf.coordinate_delta:i16-overflow", "step from the last point of a contour to the first point of the next (fontbe/src/glyphs.rs check_point_deltas_fit_i16; write-fonts SimpleGlyph::compute_point_deltas: i16 `-`)"),
         "diff" => ("glyphs.rs:glyf.coordinate:saturates", "glyphs.rs:glyf.coordinate_delta:i16-overflow", "difference of successive outline coordinates (write-fonts SimpleGlyph::compute_point_deltas via fontbe/src/glyphs.rs: i16 `-`)"),
         "compoff" => ("glyphs.rs:component.offset:saturates", "glyphs.rs:component.offset:profiles-differ", "component offset (fontbe/src/glyphs.rs create_component_ref_gid: e.ot_round() -> i16)"),
@@ -1762,6 +1927,16 @@ fn coq_case(c: &Case, dbg: &Obs, rel: &Obs) -> Option<String> {
         "adv" => via_build("fun f => [fst (nth 1 (f_hmtx f) (0, 0)); f_adv_max f; f_min_lsb f; f_min_rsb f; f_max_extent f]", None, dflt),
         "vadv" => via_build("fun f => match f_vmtx f with Some v => [fst (nth 1 v (0, 0)); zmax0 (map fst v)] | None => [] end", Some(800.0), dflt),
         "coord" | "diff" | "seam" => via_build("fun f => dump_glyf (nth 1 (f_glyf f) GEmpty) ++ bbox_list (f_head f)", None, dflt),
+        "quad" => via_build("fun f => dump_glyf (nth 1 (f_glyf f) GEmpty) ++ bbox_list (f_head f) ++ [1; 1; 0; 1]", None, dflt),
+        "qvar" => {
+            // every master is checked; the masters' points are rounded to i16, the delta is theirs
+            let cz_pts = |v: f64| coq_list(&curve_contour("qvar", v, c.n), |(x, y, _)| format!("({}, {})", cq(*x), cq(*y)));
+            let (x0, x1) = (otr(c.a), otr(c.a + c.b));
+            both(&|_| format!(
+                "(if masters_coords_fitb [[{}]; [{}]] then Emit [Z.min {} (-100); Z.max {} 0; Z.min (instance_at_master1 {} {}) (-100); Z.max (instance_at_master1 {} {}) 0] else Reject)",
+                cz_pts(c.a), cz_pts(c.a + c.b), cz(x0), cz(x0), cz(x0), cz(x1), cz(x0), cz(x1)
+            ))
+        }
         "compoff" | "compbbox" => via_build("fun f => dump_glyf (nth 3 (f_glyf f) GEmpty) ++ bbox_list (f_head f)", None, dflt),
         "scale" => via_build("fun f => dump_glyf (nth 2 (f_glyf f) GEmpty)", None, dflt),
         "kern" => via_build("fun f => f_kern f", None, dflt),
